@@ -261,6 +261,25 @@ def gen_lang(enums, lang_src):
     return "\n".join(out) + "\n"
 
 
+def expand_rust(enums, name):
+    """all inhabitants as Rust expressions, in the order of `expand`"""
+    res = []
+    for v, payload in enums[name]:
+        if payload is None:
+            res.append(f"{name}::{v}")
+        else:
+            for t in expand_rust(enums, payload):
+                res.append(f"{name}::{v}({t})")
+    return res
+
+
+def gen_types_rs(enums):
+    items = expand_rust(enums, "TokenType")
+    return ("// GENERATED by gen/rs2v.py from core/src/lang.rs — every TokenType value, in the order of the Coq enumeration all_TokenType\n"
+            "#![allow(unused_imports)]\nuse pasfmt_core::lang::*;\n\npub fn all_token_types() -> Vec<TokenType> {\n    vec![\n"
+            + "".join(f"        {t},\n" for t in items) + "    ]\n}\n")
+
+
 def gen_names_ml(enums):
     out = ["(* GENERATED by gen/rs2v.py — Rust {:?} names, in the order of the Coq enumerations *)"]
     for name in ["RawTokenType", "TokenType", "LogicalLineType"]:
@@ -292,6 +311,8 @@ def main():
         changed.append("Gen/Lang.v")
     if write_if_changed(os.path.join(DRIVER_DIR, "gen_names.ml"), gen_names_ml(enums)):
         changed.append("driver/gen_names.ml")
+    if write_if_changed(os.path.join(os.path.dirname(DRIVER_DIR), "harness", "src", "gen_types.rs"), gen_types_rs(enums)):
+        changed.append("harness/src/gen_types.rs")
     from importlib import import_module
     sys.path.insert(0, os.path.dirname(os.path.abspath(__file__)))
     for modname in ("rs2v_pipeline", "rs2v_tables"):
